@@ -118,7 +118,7 @@ func c18Drive(c *Case, lim *rate.Limiter, ts []int64) (grants []int64) {
 
 func runC18(r *Run) {
 	r.CaseTimeout = 120 * time.Second // the operator-level case bounds itself at 50 s and turns inconclusive
-	r.Rule = "(a) the rate.Limiter returned by the real CreateRateLimiter for random (I, B) — I from 1 ms to 5 s incl. values that are not a whole number of ms, B from 0 (= default 1) to 10 — driven through ReserveN(t,1).DelayFrom(t) with 20..80 (thorough 100) explicit request times on a millisecond grid in 7 arrival patterns (one burst, faster than I, slower than I, exactly I, bursts with gaps, mixed, random); every delay is compared with the integer model (tolerance 1 us) and the window bound B+ceil(T/I) is checked exactly on the limiter's own grant times for every window; unthrottled configurations (no settings, I = 0, I < 0) must never delay; a few cases with request times going backwards exercise the clamp and are checked against the skew bound B+ceil((T+S)/I). (b) settings blocks loaded through the real HookConfig.LoadAndValidate -> CreateRateLimiter -> Limit()/Burst(). (c) wall-clock runs (2 quick, 8 thorough) of Hook.RateLimitWait from 1..3 goroutines (queues), start times measured with time.Now(), bound checked with a 40 ms allowance for timer lateness (runtime observation; inconclusive rather than failing when the scheduler was late). (d) ShellOperator.taskHandleHookRun itself (hooks loaded from a generated hooks directory through the real hook manager, `settings` in the hook's --config output) called for queued HookRun tasks from 1..3 goroutines; the hook script logs its own start time; the bound is checked with a 120 ms allowance for process start-up (1 run quick, 4 thorough, one of them unthrottled). Non-trivial: >= 20 requests of which at least one was delayed; distinct = distinct op-line sequences."
+	r.Rule = "(a) the rate.Limiter returned by the real CreateRateLimiter for random (I, B) — I from 1 ms to 5 s incl. values that are not a whole number of ms, B from 0 (= default 1) to 10 — driven through ReserveN(t,1).DelayFrom(t) with 20..80 (thorough 100) explicit request times on a millisecond grid in 7 arrival patterns (one burst, faster than I, slower than I, exactly I, bursts with gaps, mixed, random); every delay is compared with the integer model (tolerance 1 us) and the window bound B+ceil(T/I) is checked exactly on the limiter's own grant times for every window; unthrottled configurations (no settings, I = 0, I < 0) must never delay; a few cases with request times going backwards exercise the clamp and are checked against the skew bound B+ceil((T+S)/I). (b) settings blocks loaded through the real HookConfig.LoadAndValidate -> CreateRateLimiter -> Limit()/Burst(). (c) wall-clock runs (2 quick, 8 thorough) of Hook.RateLimitWait from 1..3 goroutines (queues), start times measured with time.Now(), bound checked with a 40 ms allowance for timer lateness (runtime observation; inconclusive rather than failing when the scheduler was late). (d) ShellOperator.taskHandleHookRun itself (hooks loaded from a generated hooks directory through the real hook manager, `settings` in the hook's --config output) called for queued HookRun tasks from 1..3 goroutines; the hook script logs its own start time; the bound is checked with a 120 ms allowance for process start-up (1 run quick, 4 thorough, one of them unthrottled). (e) the operator's queues (3 corpus + 4 quick / 16 thorough runs): 1-2 generated hooks (the first with `settings`, the second with its own settings or none) with 1-2 schedule bindings in each of 1-3 queues (main and named ones, `queue:` in the hook configuration), schedule events (the real schedule callback of initHookManager) arriving as one burst, a steady stream or at random over ~2.5 intervals and added to the real named queues (NewNamedQueue with the operator's task handler, back-off shortened to 15-40 ms); some bindings FAIL their first 1-3 executions (without allowFailure: the queue retries the task; with allowFailure: no retry); hooks share queues. Every execution START is counted — retries and executions from all queues of the hook — from the time stamps the hook processes write; of each execution the harness knows an interval [lo, hi] containing its grant (lo = the later of: the first event of its binding was queued, the previous execution in the same queue started; hi = its own time stamp), and the bound is checked exactly on every window [lo_i, hi_j] (oracle boundiv; no assumption on process start-up times, S = 0 for a hook living in one queue, 50 ms clock-read skew allowance for several queues). Non-trivial: >= 20 requests of which at least one was delayed; distinct = distinct op-line sequences."
 
 	// ---- corpus ----
 	r.One(0, func(c *Case, _ *Rng) {
@@ -413,6 +413,13 @@ func runC18(r *Run) {
 			// nothing to bound; the run only shows that an unthrottled hook is executed at once
 			return
 		}
+		// every handler call was made at or after its `reqs` entry and its hook process wrote its start
+		// at or after the grant: pairing the sorted request times with the sorted starts keeps
+		// lo <= grant <= hi (exchange argument), so this check needs no allowance for process start-up.
+		sort.Slice(reqs, func(i, j int) bool { return reqs[i] < reqs[j] })
+		if len(reqs) == len(starts) {
+			c.Oracle(fmt.Sprintf("boundiv I=%d B=%d S=%d lo=%s hi=%s", int64(iv), b, c18Skew(queues), joinI64(reqs), joinI64(starts)))
+		}
 		// starts lag grants by process start-up (fork/exec of bash): allowance 120 ms
 		allow := 120 * time.Millisecond
 		switch {
@@ -424,6 +431,10 @@ func runC18(r *Run) {
 			c.Inconcl = "hook processes started more than 120 ms after their grants"
 		}
 	})
+
+	// ---- (e) the operator's queues: schedule events -> real named queues -> taskHandler -> hook processes ----
+	r.Cases(10, 3, 3, func(c *Case, rng *Rng) { c18RunQueues(r, c, c18CorpusScenario(c.Idx)) })
+	r.Cases(960000, r.N(4, 16), 4, func(c *Case, rng *Rng) { c18RunQueues(r, c, c18RandomScenario(rng)) })
 }
 
 // c18BoundOK is used only to choose between "check", "report" and "inconclusive" for the wall-clock
@@ -450,4 +461,367 @@ func c18BoundOK(iv, b int64, gs []int64) bool {
 		}
 	}
 	return true
+}
+
+// c18Skew is the allowance (ns) for request times of one hook read by several queue workers before
+// they take the limiter's mutex (token_bucket_bound_skew); a single queue needs none.
+func c18Skew(queues int) int64 {
+	if queues <= 1 {
+		return 0
+	}
+	return int64(50 * time.Millisecond)
+}
+
+// ---------------------------------------------------------------- (e) queue-driven operator runs
+
+type c18Bind struct {
+	hook      int    // index into scn.hooks
+	name      string // binding name, unique over all hooks
+	queue     string // "main" or a named queue
+	crontab   string // unique: one tick = one event of this binding
+	failFirst int    // the first failFirst executions whose first binding context is this binding fail
+	allowFail bool
+}
+
+type c18Hook struct {
+	name      string
+	throttled bool
+	iv        time.Duration
+	b         int
+}
+
+type c18Event struct {
+	at   time.Duration
+	bind int
+}
+
+type c18Scn struct {
+	desc    string
+	hooks   []c18Hook
+	binds   []c18Bind
+	events  []c18Event // sorted by at
+	backoff time.Duration
+}
+
+func c18Crontab(i int) string { return fmt.Sprintf("%d 3 1 1 *", i) }
+
+// c18CorpusScenario: fixed situations the random generator only hits sometimes.
+func c18CorpusScenario(idx int) c18Scn {
+	switch idx {
+	case 10:
+		// a rate-limited hook that fails (no allowFailure) and is retried by its queue while no token is available
+		return c18Scn{desc: "corpus: one queue, I=400ms B=1, the task fails 3 times and is retried after 20 ms",
+			hooks:   []c18Hook{{name: "hook0.sh", throttled: true, iv: 400 * time.Millisecond, b: 1}},
+			binds:   []c18Bind{{hook: 0, name: "main-0", queue: "main", crontab: c18Crontab(0), failFirst: 3}},
+			events:  []c18Event{{0, 0}},
+			backoff: 20 * time.Millisecond}
+	case 11:
+		// one hook with bindings in three queues, events in all of them at once and again within the interval
+		return c18Scn{desc: "corpus: one hook in 3 queues (main, qa, qb), I=400ms B=1, events in all queues at 0 and at 60 ms",
+			hooks: []c18Hook{{name: "hook0.sh", throttled: true, iv: 400 * time.Millisecond, b: 1}},
+			binds: []c18Bind{{hook: 0, name: "main-0", queue: "main", crontab: c18Crontab(0)},
+				{hook: 0, name: "qa-0", queue: "qa", crontab: c18Crontab(1)},
+				{hook: 0, name: "qb-0", queue: "qb", crontab: c18Crontab(2)}},
+			events:  []c18Event{{0, 0}, {0, 1}, {0, 2}, {60 * time.Millisecond, 0}, {60 * time.Millisecond, 1}, {60 * time.Millisecond, 2}},
+			backoff: 20 * time.Millisecond}
+	default:
+		// two queues, burst 2, a failing binding in the named queue, an unthrottled hook sharing both queues
+		return c18Scn{desc: "corpus: hook0 (I=300ms B=2) in main and qa, qa-0 fails twice; unthrottled hook1 shares both queues",
+			hooks: []c18Hook{{name: "hook0.sh", throttled: true, iv: 300 * time.Millisecond, b: 2}, {name: "hook1.sh"}},
+			binds: []c18Bind{{hook: 0, name: "main-0", queue: "main", crontab: c18Crontab(0)},
+				{hook: 0, name: "qa-0", queue: "qa", crontab: c18Crontab(1), failFirst: 2},
+				{hook: 1, name: "main-1", queue: "main", crontab: c18Crontab(2)},
+				{hook: 1, name: "qa-1", queue: "qa", crontab: c18Crontab(3)}},
+			events: []c18Event{{0, 0}, {0, 1}, {0, 2}, {0, 3}, {30 * time.Millisecond, 0}, {30 * time.Millisecond, 1},
+				{100 * time.Millisecond, 2}, {120 * time.Millisecond, 0}, {120 * time.Millisecond, 1}, {200 * time.Millisecond, 3},
+				{250 * time.Millisecond, 0}, {250 * time.Millisecond, 1}},
+			backoff: 25 * time.Millisecond}
+	}
+}
+
+func c18RandomScenario(rng *Rng) c18Scn {
+	iv := PickOne(rng, []time.Duration{300 * time.Millisecond, 400 * time.Millisecond, 500 * time.Millisecond})
+	b := PickOne(rng, []int{1, 1, 2, 3})
+	scn := c18Scn{backoff: time.Duration(rng.Range(15, 40)) * time.Millisecond}
+	scn.hooks = append(scn.hooks, c18Hook{name: "hook0.sh", throttled: true, iv: iv, b: b})
+	if rng.Chance(50) {
+		h := c18Hook{name: "hook1.sh"}
+		if rng.Bool() {
+			h.throttled, h.iv, h.b = true, PickOne(rng, []time.Duration{200 * time.Millisecond, 350 * time.Millisecond}), PickOne(rng, []int{1, 2})
+		}
+		scn.hooks = append(scn.hooks, h)
+	}
+	queues := []string{"main", "qa", "qb"}[:rng.Range(1, 3)]
+	if rng.Chance(25) {
+		queues = queues[len(queues)-1:] // only a named queue (or only main)
+	}
+	skipAt := -1
+	if len(queues) > 1 && rng.Chance(60) {
+		skipAt = rng.Intn(len(queues)) // the second hook does not live in every queue
+	}
+	for hi := range scn.hooks {
+		for qi, q := range queues {
+			if hi > 0 && qi == skipAt {
+				continue
+			}
+			for j := 0; j < rng.Range(1, 2); j++ {
+				bd := c18Bind{hook: hi, name: fmt.Sprintf("%s-%d-%d", q, hi, j), queue: q, crontab: c18Crontab(len(scn.binds))}
+				if rng.Chance(35) {
+					bd.failFirst = rng.Range(1, 3)
+					bd.allowFail = rng.Chance(25)
+				}
+				scn.binds = append(scn.binds, bd)
+			}
+		}
+	}
+	n := rng.Range(4, 10)
+	pat := PickOne(rng, []string{"burst", "steady", "random", "two-bursts"})
+	span := 5 * iv / 2
+	for i := 0; i < n; i++ {
+		var at time.Duration
+		switch pat {
+		case "burst":
+		case "steady":
+			at = span * time.Duration(i) / time.Duration(n)
+		case "two-bursts":
+			if i >= n/2 {
+				at = iv/2 + time.Duration(rng.Intn(int(iv/time.Millisecond)))*time.Millisecond
+				if i > n/2 {
+					at = scn.events[n/2].at
+				}
+			}
+		default:
+			at = time.Duration(rng.Intn(int(span/time.Millisecond))) * time.Millisecond
+		}
+		scn.events = append(scn.events, c18Event{at: at, bind: rng.Intn(len(scn.binds))})
+	}
+	sort.SliceStable(scn.events, func(i, j int) bool { return scn.events[i].at < scn.events[j].at })
+	scn.desc = fmt.Sprintf("queues: I=%v B=%d, %d hooks, %d bindings in %d queues, %d events (%s), back-off %v", iv, b, len(scn.hooks), len(scn.binds), len(queues), n, pat, scn.backoff)
+	return scn
+}
+
+type c18Exec struct {
+	hi    int64 // start time written by the hook process (unix ns)
+	bind  int
+	hook  int
+	queue string
+	lo    int64
+}
+
+func c18RunQueues(r *Run, c *Case, scn c18Scn) {
+	c.Desc = "operator queues: " + scn.desc
+	dir := filepath.Join(r.Scratch, fmt.Sprintf("c18-q-%d", c.Idx))
+	hooksDir := filepath.Join(dir, "hooks")
+	tmp := filepath.Join(dir, "tmp")
+	_ = os.MkdirAll(hooksDir, 0o755)
+	_ = os.MkdirAll(tmp, 0o755)
+	defer os.RemoveAll(dir)
+	bindIdx := map[string]int{}
+	for i, bd := range scn.binds {
+		bindIdx[bd.name] = i
+	}
+	logOf := func(h int) string { return filepath.Join(dir, fmt.Sprintf("starts-%d.log", h)) }
+	for hi, h := range scn.hooks {
+		var cfg strings.Builder
+		cfg.WriteString("configVersion: v1\n")
+		if h.throttled {
+			fmt.Fprintf(&cfg, "settings:\n  executionMinInterval: %s\n  executionBurst: %d\n", h.iv.String(), h.b)
+		}
+		cfg.WriteString("schedule:\n")
+		var cases strings.Builder
+		for _, bd := range scn.binds {
+			if bd.hook != hi {
+				continue
+			}
+			fmt.Fprintf(&cfg, "- name: %s\n  crontab: \"%s\"\n  allowFailure: %v\n", bd.name, bd.crontab, bd.allowFail)
+			if bd.queue != "main" {
+				fmt.Fprintf(&cfg, "  queue: %s\n", bd.queue)
+			}
+			if bd.failFirst > 0 {
+				fmt.Fprintf(&cases, "  %s) lim=%d;;\n", bd.name, bd.failFirst)
+			}
+		}
+		// the very first thing an execution does is to take its start time
+		script := "#!/bin/bash\nif [[ \"${1:-}\" == \"--config\" ]]; then\ncat <<'EOF'\n" + cfg.String() + "EOF\nexit 0\nfi\n" +
+			"ts=$(date +%s%N)\nctx=$(<\"$BINDING_CONTEXT_PATH\")\nre='\"binding\": *\"([^\"]+)\"'\nname=none\n[[ $ctx =~ $re ]] && name=${BASH_REMATCH[1]}\n" +
+			"echo \"$ts $name\" >> " + logOf(hi) + "\nlim=0\ncase \"$name\" in\n" + cases.String() + "  *) ;;\nesac\n" +
+			"n=$(grep -c \" $name\\$\" " + logOf(hi) + ")\nif (( n <= lim )); then echo 'not yet' >&2; exit 1; fi\nexit 0\n"
+		_ = os.WriteFile(filepath.Join(hooksDir, h.name), []byte(script), 0o755)
+	}
+	ctx, cancel := context.WithCancel(context.Background())
+	defer cancel()
+	op := shell_operator.NewShellOperator(ctx, shell_operator.WithLogger(log.NewNop()))
+	op.MetricStorage = metricstorage.NewMetricStorage(ctx, "", true, log.NewNop())
+	op.HookMetricStorage = metricstorage.NewMetricStorage(ctx, "", true, log.NewNop())
+	if err := op.VerifC18Setup(hooksDir, tmp); err != nil {
+		c.Op("operator-setup", "err "+firstLine(err.Error()))
+		return
+	}
+	for _, h := range scn.hooks {
+		hk := op.HookManager.GetHook(h.name)
+		if hk == nil {
+			c.Op("operator-setup", "hook-not-loaded")
+			return
+		}
+		if h.throttled {
+			c.Op(fmt.Sprintf("settings i=%d b=%d", int64(h.iv), h.b), c18LimLine(hk.RateLimiter))
+		} else {
+			c.Op("settings i=- b=-", c18LimLine(hk.RateLimiter))
+		}
+		// what the main queue does at start-up: enable the schedule bindings of the hook
+		res := op.VerifC18EnableSchedules(task.NewTask(task_metadata.EnableScheduleBindings).
+			WithMetadata(task_metadata.HookMetadata{HookName: h.name, Binding: string(task_metadata.EnableScheduleBindings)}))
+		if res.Status != "Success" {
+			c.Op("operator-setup", "enable-schedules-"+string(res.Status))
+			return
+		}
+	}
+	// the queues named by the bindings, created as the operator creates them, delays shortened
+	queueNames := map[string]bool{}
+	for _, bd := range scn.binds {
+		if !queueNames[bd.queue] {
+			queueNames[bd.queue] = true
+			q := op.VerifC18NewQueue(bd.queue)
+			backoff := scn.backoff
+			q.ExponentialBackoffFn = func(int) time.Duration { return backoff }
+			q.WaitLoopCheckInterval = 5 * time.Millisecond
+			q.DelayOnQueueIsEmpty = 10 * time.Millisecond
+		}
+	}
+	t0 := time.Now()
+	wall0 := t0.UnixNano()
+	for name := range queueNames {
+		op.TaskQueues.GetByName(name).Start()
+	}
+	// feed the events: one tick of the binding's crontab through the real schedule callback
+	firstQueued := map[int]int64{}
+	wrongQueue := ""
+	for _, ev := range scn.events {
+		if d := ev.at - time.Since(t0); d > 0 {
+			time.Sleep(d)
+		}
+		bd := scn.binds[ev.bind]
+		before := time.Now().UnixNano()
+		tasks := op.VerifC18ScheduleEvent(bd.crontab)
+		if len(tasks) != 1 {
+			c.Op(fmt.Sprintf("operator-queues events=%d", len(scn.events)), fmt.Sprintf("schedule-event-made-%d-tasks", len(tasks)))
+			return
+		}
+		if _, ok := firstQueued[ev.bind]; !ok {
+			firstQueued[ev.bind] = before
+		}
+		q := op.TaskQueues.GetByName(tasks[0].GetQueueName())
+		if q == nil || tasks[0].GetQueueName() != bd.queue {
+			wrongQueue = tasks[0].GetQueueName()
+			break
+		}
+		q.AddLast(tasks[0])
+	}
+	if wrongQueue != "" {
+		c.Op(fmt.Sprintf("operator-queues events=%d", len(scn.events)), "task-for-queue-"+wrongQueue)
+		return
+	}
+	// wait until every queue is empty (a task stays in its queue while it is handled and retried)
+	deadline := time.Now().Add(50 * time.Second)
+	for {
+		empty := true
+		for name := range queueNames {
+			if !op.TaskQueues.GetByName(name).IsEmpty() {
+				empty = false
+			}
+		}
+		if empty {
+			break
+		}
+		if time.Now().After(deadline) {
+			c.Inconcl = "the queues did not drain in 50 s"
+			return
+		}
+		time.Sleep(5 * time.Millisecond)
+	}
+	cancel()
+	// the wall clock (date in the hook processes, UnixNano here) must not have been stepped meanwhile
+	if d := (time.Now().UnixNano() - wall0) - int64(time.Since(t0)); d > int64(2*time.Millisecond) || d < -int64(2*time.Millisecond) {
+		c.Inconcl = "the wall clock was stepped during the run"
+		return
+	}
+	// the executions, as the hook processes recorded them
+	var execs []c18Exec
+	perBind := map[int]int{}
+	for hi := range scn.hooks {
+		lb, _ := os.ReadFile(logOf(hi))
+		for _, l := range strings.Split(strings.TrimSpace(string(lb)), "\n") {
+			f := strings.Fields(l)
+			if len(f) != 2 {
+				continue
+			}
+			var v int64
+			if _, err := fmt.Sscan(f[0], &v); err != nil {
+				continue
+			}
+			bi, ok := bindIdx[f[1]]
+			if !ok || scn.binds[bi].hook != hi {
+				c.Op(fmt.Sprintf("operator-queues events=%d", len(scn.events)), "execution-with-unknown-binding")
+				return
+			}
+			execs = append(execs, c18Exec{hi: v, bind: bi, hook: hi, queue: scn.binds[bi].queue})
+			perBind[bi]++
+		}
+	}
+	// events of one hook waiting in one queue may be combined into one execution (whose first binding
+	// context is the oldest task's), never dropped: every (hook, queue) that got events was executed
+	status := "drained"
+	type hq struct {
+		hook  int
+		queue string
+	}
+	ran := map[hq]int{}
+	for _, e := range execs {
+		ran[hq{e.hook, e.queue}]++
+	}
+	for bi, bd := range scn.binds {
+		if _, got := firstQueued[bi]; got && ran[hq{bd.hook, bd.queue}] == 0 {
+			status = fmt.Sprintf("hook-%d-never-executed-in-queue-%s", bd.hook, bd.queue)
+		}
+	}
+	c.Op(fmt.Sprintf("operator-queues events=%d", len(scn.events)), status)
+	// lo: the later of "the first event of this binding was queued" and "the previous execution in the
+	// same queue started" (one worker per queue: its executions, retries included, are sequential).
+	sort.Slice(execs, func(i, j int) bool { return execs[i].hi < execs[j].hi })
+	lastInQueue := map[string]int64{}
+	for i := range execs {
+		e := &execs[i]
+		e.lo = firstQueued[e.bind]
+		if p, ok := lastInQueue[e.queue]; ok && p > e.lo {
+			e.lo = p
+		}
+		lastInQueue[e.queue] = e.hi
+	}
+	c.Note("kind:operator-queues")
+	c.Note(fmt.Sprintf("queues:%d", len(queueNames)))
+	retries := 0
+	for hi, h := range scn.hooks {
+		var los, his []int64
+		qs := map[string]bool{}
+		for _, e := range execs {
+			if e.hook == hi {
+				los = append(los, e.lo-wall0)
+				his = append(his, e.hi-wall0)
+				qs[e.queue] = true
+			}
+		}
+		for bi, bd := range scn.binds {
+			if bd.hook == hi && !bd.allowFail && bd.failFirst > 0 && perBind[bi] > 1 {
+				retries++
+			}
+		}
+		if !h.throttled || len(his) == 0 {
+			continue
+		}
+		c.Oracle(fmt.Sprintf("boundiv I=%d B=%d S=%d lo=%s hi=%s", int64(h.iv), h.b, c18Skew(len(qs)), joinI64(los), joinI64(his)))
+	}
+	if retries > 0 {
+		c.Note("with-retries")
+	}
+	c.Nontrivial = len(execs) >= 3
 }
